@@ -688,6 +688,47 @@ def explicit_case(kind, op):
     return Case(name, body, goals, family="explicit/" + kind, params=dict(kind=kind, op=op), **BIG)
 
 
+def none_default_case(kind):
+    """an optional parameter whose declared default is None (def f(x, t, weight=None)): still optional -- a call without
+    it is accepted and the function receives None; partial evaluation with the required names yields the value"""
+    cls = WCLS(kind)
+    name = "none_default/%s" % kind
+
+    def body(env):
+        x, t = env.tensor("tok_x", (R, 1)), env.tensor("tok_t", (R, 1))
+        seen = []
+
+        def user_f(x, t, weight=None):
+            seen.append(weight)
+            return [x, t]
+
+        w = cls(user_f)
+        nec, opt = list(w.necessary_args), list(w.optional_args)
+        out = invoke(w, {"t": t, "x": x}, KINDS[kind][2])
+        pe = w.partially_evaluate(x=x, t=t)
+        raised = False
+        try:
+            invoke(w, {"x": x}, KINDS[kind][2])
+        except AssertionError:
+            raised = True
+        return dict(nec=nec, opt=opt, out=out, pe_is_value=not isinstance(pe, UserFunction), seen=[v is None for v in seen], raised=raised,
+                    x=x, t=t)
+
+    def goals(o, L, env):
+        yield "necessary_names", o["nec"] == ["x", "t"]
+        yield "optional_names", o["opt"] == ["weight"]
+        yield "function_received_None", len(o["seen"]) >= 1 and all(o["seen"])
+        yield "partial_evaluation_with_all_required_names_is_a_value", bool(o["pe_is_value"])
+        yield "missing_required_name_still_rejected", bool(o["raised"])
+        got = o["out"]
+        yield "result_shape", isinstance(got, list) and len(got) == 2
+        if isinstance(got, list) and len(got) == 2:
+            yield "routed[x]", same(L, leaves(got[0]), leaves(o["x"]))
+            yield "routed[t]", same(L, leaves(got[1]), leaves(o["t"]))
+
+    return Case(name, body, goals, family="none_default/" + kind, params=dict(kind=kind), **BIG)
+
+
 # --------------------------------------------------------------------------
 
 
@@ -755,6 +796,8 @@ def cases(tier):
     for kind in ("UF", "DUF"):
         cs.append(seq_case(kind, 3, 2, ("twin_function",), family="twin"))
         cs.append(seq_case(kind, 3, 1, ("call", "twin_function"), family="twin"))
+    cs.append(none_default_case("UF"))
+    cs.append(none_default_case("DUF"))
     # ---- constants, explicit containers
     cs.append(constant_case("UF"))
     cs.append(constant_case("DUF"))
